@@ -392,7 +392,7 @@ func Main(id string, scenarios []Scenario, extra Extra, seqParts ...SeqPart) {
 					}
 				}
 			}
-			frontier := ex.Expand(96)
+			frontier := ex.Expand(400)
 			res.Stats = ex.Stats
 			res.Err = ex.Err
 			if b == st.BoundRequested && len(samples) < 12 {
